@@ -185,7 +185,9 @@ func runTimeline(tl timeline, dir string) outcome {
 		app.Stop()
 		cycles := 1 + at%3
 		for c := 0; c < cycles; c++ {
-			app = newApp()
+			if (at+c)%2 == 0 {
+				app = newApp() // a fresh appender value on the same directory ...
+			} // ... or the very same value started again
 			if err := app.Start(); err != nil {
 				gate.Unlock()
 				return outcome{err: fmt.Errorf("VERIF-INCONCLUSIVE: restart: %v", err)}
